@@ -260,11 +260,15 @@ claim("C05",
       "Lean 4 theorems + kernel-checked obligations over constants regenerated from /repo + correspondence check")
 claim("C11",
       "Lean theorems over an exact rational model of getBlocksBetweenElevations, setNumberDensitiesFromOverlaps, "
-      "setAssemblyStateFromOverlaps, _filterMesh, resampleStepwise, average1DWithinTolerance and getBlockAtElevation: for all "
+      "setAssemblyStateFromOverlaps, _filterMesh, _decuspAxialMesh, Block.setHeight/adjustDensity, Assembly.setBlockMesh, "
+      "resampleStepwise, average1DWithinTolerance and getBlockAtElevation: for all "
       "contiguous mesh pairs over the same height and all profiles, atom conservation, integrated-total conservation, "
       "height-weighted means, constants, peaks (values >= 0), round-trip totals, the partition of every window with the 1e-10 "
       "sliver filter characterised exactly, the full _filterMesh specification incl. refusal for both preferences, and "
-      "resampleStepwise conservation and mean for arbitrary strictly increasing meshes. Tied on every run by same-input "
+      "resampleStepwise conservation and mean for arbitrary strictly increasing meshes; adjustDensity conserves density x height "
+      "of every listed nuclide (up to the stated 1e-50 trace term) and leaves every unlisted one verbatim; every de-cusped common "
+      "mesh is strictly increasing with no cell below the minimum (its failure to keep the core top in one configuration is a "
+      "listed finding reproduced by the model). Tied on every run by same-input "
       "correspondence on real fixture assemblies and generated inputs (nearly coincident meshes, repeated re-meshing, unset-value "
       "patterns x parameter listing orders) plus an independent oracle.",
       "floating-point rounding; points 1e-7..3e-11 apart are oracle-only; XS-type selection and createHomogenizedCopy; output "
